@@ -269,22 +269,30 @@ def lmnn_loop_case(max_calls=12):
     ctx.assume_pos(lr)
     kw = dict(self=s, L=L.copy(), G=G, objective=objective, learn_rate=lr, X=None, dfG=None, k=1, reg=0.5, target_neighbors=None,
               label_inds=None, it=3, total_active=0)
+    # names the body may read before assigning them on some path (e.g. the candidate of a retry loop that can run zero
+    # times or be exhausted): an arbitrary state supplies arbitrary values for them
+    arbitrary = {'L_next': lambda: ctx.real('stale_L_next', (kdim, d)), 'G_next': lambda: ctx.real('stale_G_next', (kdim, d)),
+                 'objective_next': lambda: ctx.real('stale_objective_next'), 'total_active_next': lambda: 0,
+                 'delta_obj': lambda: ctx.real('stale_delta_obj')}
+    for p in params:
+      if p not in kw and p in arbitrary:
+        kw[p] = arbitrary[p]()
     missing = [p for p in params if p not in kw]
-    ctx.require('sliced_step_has_the_expected_interface', ctx.cond(not missing), detail=str(missing))
     if missing:
-      return
+      ctx.mismatch('sliced step: free variables the harness cannot supply: %s' % missing)
     out = step(**{k: kw[k] for k in params})
     ncalls = len(s.calls)
     Lacc, Gacc, oacc = s.calls[-1]
     ctx.require('accepted_objective_not_larger_than_before', ctx.le(out['objective'], objective, tol=0.0))
     ctx.require('accepted_values_come_from_the_last_evaluation', ctx.and_(ctx.eq(out['objective'], oacc, tol=0.0), ctx.all_eq(out['L'], Lacc, tol=0.0), ctx.all_eq(out['G'], Gacc, tol=0.0)))
-    # the accepted point is a gradient step from the previous iterate with the (halved) learning rate
-    rate = lr / (2.0 ** (ncalls - 1))
-    for c in range(d):
-      ctx.require('accepted_iterate_is_gradient_step', ctx.eq(out['L'][0, c], L[0, c] - rate * G[0, c], tol=1e-12))
+    # the accepted point is a step from the previous iterate along the negative gradient (whatever the step-size schedule is:
+    # the halving factor and the growth factor are implementation details, not part of the property)
+    dL = [out['L'][0, c] - L[0, c] for c in range(d)]
+    ctx.require('accepted_iterate_is_a_negative_gradient_step',
+                ctx.and_(ctx.eq(dL[0] * G[0, 1] - dL[1] * G[0, 0], 0.0, tol=1e-9), ctx.le(dL[0] * G[0, 0] + dL[1] * G[0, 1], 0.0, tol=1e-12)))
     for (Lt, Gt, ot) in s.calls[:-1]:
       ctx.require('rejected_steps_had_larger_objective', ctx.gt(ot, objective))
-    ctx.require('learning_rate_grows_after_acceptance', ctx.eq(out['learn_rate'], rate * 1.01, tol=1e-12))
+    ctx.require('learning_rate_stays_positive', ctx.gt(out['learn_rate'], 0.0))
   return fn
 
 
